@@ -50,6 +50,15 @@ let eval (op : string) (args : sx list) : sx list =
   | "seq_transcribe", [s] -> sx_of_out (fun r -> [sx_of_seq r]) (seq_transcribe (seq_of_sx s))
   | "seq_concat", [L ss] -> sx_of_out (fun r -> [sx_of_seq r]) (seq_concat (List.map seq_of_sx ss))
   | "seq_locate", [r; s] -> sx_of_out (fun r -> [sx_of_seq r]) (locate (region_of_sx r) (seq_of_sx s))
+  | "region_resize", [r; m] -> sx_of_out (fun r -> [sx_of_region r]) (region_resize (region_of_sx r) (modifier_of_sx m))
+  | "region_len", [r] -> [A "ok"; sx_of_z (region_len (region_of_sx r))]
+  | "region_head", [r] -> [A "ok"; sx_of_z (region_head (region_of_sx r))]
+  | "region_tail", [r] -> [A "ok"; sx_of_z (region_tail (region_of_sx r))]
+  | "region_complement", [r] -> [A "ok"; sx_of_region (region_complement (region_of_sx r))]
+  | "mod_apply", [m; h; t] -> let (a, b) = mod_apply (modifier_of_sx m) (z_of_sx h) (z_of_sx t) in [A "ok"; sx_of_z a; sx_of_z b]
+  | "minimize", [r] -> [A "ok"; sx_of_segs (minimize (region_of_sx r))]
+  | "invert_linear", [r; n] -> [A "ok"; L (List.map sx_of_region (invert_linear (region_of_sx r) (z_of_sx n)))]
+  | "invert_circular", [r; n] -> sx_of_out (fun rr -> [L (List.map sx_of_region rr)]) (invert_circular (region_of_sx r) (z_of_sx n))
   | _ -> [A "unknown-op"]
 
 let () =
